@@ -136,6 +136,22 @@ def run_case(case, ctx):
                 ref = Ta
             if ref_sec is None and name == "eigenbasis_of(H)":
                 ref_sec = Ta
+    # a basis reached by a unitary (not orthogonal) matrix: the eigenbasis of a self-adjoint operator with complex elements.
+    # (tensor-form only: the operator form keeps K^+ as K^T and is documented for real operators)
+    if not ops_form:
+        from quantarhei import Manager
+        Cd = tensors.random_sao(rng, dim).astype(complex)
+        Bi = rng.normal(size=(dim - 1, dim - 1))
+        Cd[1:, 1:] += 1j * (Bi - Bi.T) / 2
+        saoc = qr.qm.SelfAdjointOperator(data=Cd)
+        with ctx.lib("reading the tensor eigenbasis_of(complex self-adjoint operator)", mechanism=None):
+            with qr.eigenbasis_of(saoc):
+                Su = numpy.array(Manager().basis_transformations[-1])
+                Tu = numpy.array(R.data, copy=True)
+        identities(ctx, Tu, det, ".data eigenbasis_of(complex self-adjoint operator)")
+        want = numpy.einsum("ia,jb,...ijkl,kc,ld->...abcd", Su.conj(), Su, ref, Su, Su.conj())
+        ctx.check("apply==data", float(numpy.max(numpy.abs(Tu - want))), 1e-12 * max(float(numpy.max(numpy.abs(ref))), 1e-300) * dim * dim,
+                  dict(det, observed=".data in a unitary basis vs the site-basis tensor transformed by the context's matrix"))
     # read outside again: the contexts must have restored the representation (cheap cross-check, C04's business otherwise)
     if not ops_form:
         ctx.check("restored-after-contexts", float(numpy.max(numpy.abs(numpy.array(R.data) - ref))),
